@@ -70,7 +70,9 @@ structure Pattern where
 
 /-- What `_generate_streamer_setup_vals` reads from the streaming region: the stride patterns and, per
 operand, whether it is the result of `arith.constant 0 : index` (zero pointer). `zero.length` is the number
-of operands. -/
+of operands. A pointer that is a block argument (function argument, loop-carried value) or the result of any
+other op — including a non-zero constant — has flag `false`, and the flag is evaluated afresh for every operand
+(the xDMA generator does not: see `xdmaVals`). -/
 structure StreamOp where
   pats : List Pattern
   zero : List Bool
